@@ -223,7 +223,8 @@ impl Sut for GS {
         GSet::new()
     }
     fn random_cmd(rng: &mut Rng, _sh: &Shadow) -> Cmd {
-        Cmd::new("insert", vec![rng.below(6) as u64])
+        // (wide profile: 40 possible elements, so that sets of a dozen and more members meet in merges)
+        Cmd::new("insert", vec![rng.below(if wide() > 0 { 40 } else { 6 }) as u64])
     }
     fn gen(&self, _actor: A, cmd: &Cmd, _sh: &mut Shadow, _old: &Self) -> Option<Gen<Self::Op>> {
         let e = cmd.arg(0) as u32;
@@ -240,7 +241,7 @@ impl Sut for GS {
     fn observe(&self) -> Obs {
         let r = self.read();
         let mut inc = None;
-        for e in 0..8u32 {
+        for e in 0..if wide() > 0 { 40 } else { 8u32 } {
             if self.contains(&e) != r.contains(&e) {
                 inc = Some(format!("contains({e}) disagrees with read()"));
             }
